@@ -171,6 +171,14 @@ def values(rng, dtype, n, vclass="small"):
             if ii.min < 0:
                 pool += [-1, -2]
             return np.array([rng.choice(pool) for _ in range(n)], dtype=dt)
+        if vclass == "pow2":
+            # magnitudes at every power of two the type holds (not only its extremes): a base value plus 0, small numbers, 2**k and its neighbours
+            bits = dt.itemsize * 8 - (1 if ii.min < 0 else 0)
+            k = rng.randint(min(5, bits - 2), bits - 2)
+            base = rng.choice([0, 0, 1, 7] + ([-(2 ** (k - 1)), -3] if ii.min < 0 else []))
+            pool = [base, base + 1, base + 3, base + 7, base + 2 ** k, base + 2 ** k - 1, base + 2 ** k + 1, base + 2 ** (k - 1), base + 2 ** k + 2 ** (k - 2)]
+            pool = [v for v in pool if ii.min <= v <= ii.max]
+            return np.array([rng.choice(pool) for _ in range(n)], dtype=dt)
         lo = max(int(ii.min), -100)
         hi = min(int(ii.max), 100)
         return np.array([rng.randint(lo, hi) for _ in range(n)], dtype=dt)
@@ -206,10 +214,19 @@ def id_rows(lens, base=0):
     return [[base + 1000 * i + j + 1 for j in range(l)] for i, l in enumerate(lens)]
 
 
-def gen_slice(rng, n, steps=(None, 1, 1, 2, 3, -1, -1, -2, -3, 7, -7)):
+FAR = [2 ** 31, -2 ** 31, 2 ** 31 - 1, -(2 ** 31) - 1, 2 ** 32 + 3, 2 ** 40, -2 ** 40, 2 ** 62, -2 ** 62]
+
+
+def gen_slice(rng, n, steps=(None, 1, 1, 2, 3, -1, -1, -2, -3, 7, -7), far=False):
+    """far=True: now and then a start / stop / step far beyond any length (and beyond 32 bits): python clamps them"""
     def b():
+        if far and rng.random() < 0.04:
+            return rng.choice(FAR)
         return rng.choice([None, None, rng.randint(-n - 2, n + 2)])
-    return slice(b(), b(), rng.choice(steps))
+    st = rng.choice(steps)
+    if far and rng.random() < 0.04:
+        st = rng.choice(FAR)
+    return slice(b(), b(), st)
 
 
 def slice_tag(s):
